@@ -15,7 +15,9 @@ matcher after every operation.
   c11 denr TREE            -> (((id weight)..) ((id nterms)..))   Layer S lists of the reads of the fresh tree
 
 TREE ::= (null) | (list (id..) (w..) scorer01) | (leaf SC tmw tml (blk maxid maxw minlen (id w len)..)..)
-       | (union T T) | (dismax T T) | (inter T T) | (andnot T T) | (andmaybe T T) | (require T T)
+       | (union T T) | (dismax T T) | (dismax T T tiebreak) | (inter T T) | (andnot T T) | (andmaybe T T) | (require T T)
+         (dismax T T tiebreak): `DisjunctionMaxMatcher(a, b, tiebreak=t)`; the class stores the option and no
+         method reads it (score/block_quality/max_quality are the plain maximum), so the model value is the same
        | (boost b T) | (filter (id..) excl01 boost T) | (inverse limit (missing..) weight T) | (const score T)
        | (multi (offset T) ...)        MultiMatcher; the sub-matchers must all have the same tree shape
        | (aunion doccount boost partsize T ...)   ArrayUnionMatcher; sub-matchers of one shape
@@ -103,6 +105,12 @@ partial def parseTree : SExp → Option (R Any)
     let b ← parseTree b
     pure (do let a ← a; let b ← b; pure (mkUnion a b))
   | .list [.atom "dismax", a, b] => do
+    let a ← parseTree a
+    let b ← parseTree b
+    pure (do let a ← a; let b ← b; pure (mkDisMax a b))
+  | .list [.atom "dismax", a, b, tb] => do
+    -- `DisjunctionMaxMatcher.__init__(a, b, tiebreak)`: stored, carried by copy(), read by no method
+    let _ ← tb.rat?
     let a ← parseTree a
     let b ← parseTree b
     pure (do let a ← a; let b ← b; pure (mkDisMax a b))
